@@ -16,6 +16,7 @@ TraceInit == tid \in 1..Len(Traces) /\ l = 1 /\ Init
 Step(a) ==
     \/ a.op = "Set" /\ Set(a.k, EntOf(a.e))
     \/ a.op = "Del" /\ Del(a.k)
+    \/ a.op = "Elsewhere" /\ Elsewhere(a.k, EntOf(a.e))
     \/ a.op = "Iter" /\ Iter
     \/ a.op = "Commit" /\ Commit
     \/ a.op = "Reopen" /\ Reopen
